@@ -122,7 +122,17 @@ fn augmented(rng: &mut Rng, depth: u32) -> Program {
 pub struct C11;
 
 fn cyclic_items(rng: &mut Rng) -> Vec<String> {
-    match rng.below(7) {
+    const APPLY: &str = "zapply :: fn f: fn -> int -> int do\n    f()\nend\n";
+    match rng.below(15) {
+        // cycles that pass through a function literal handed to a call / stored in a value
+        7 => vec![APPLY.into(), "zca :: zapply(fn -> int do zca end)\n".into()],
+        8 => vec!["zpick :: fn f: fn -> int, o: int -> int do\n    o\nend\n".into(), "zca :: zpick(fn -> int do 1 end, zca)\n".into()],
+        9 => vec![APPLY.into(), "zca :: zapply(fn -> int do zcb end)\n".into(), "zcb :: zca\n".into()],
+        10 => vec!["zcl :: [fn -> int do list.len(zcl) end]\n".into()],
+        11 => vec![APPLY.into(), "zca :: 1 + zapply(fn -> int do zca end)\n".into()],
+        12 => vec![APPLY.into(), "zca :: if true do zapply(fn -> int do zca end) else do 2 end\n".into()],
+        13 => vec!["Zcy :: blob {\n    n: int,\n    f: fn -> int,\n}\n".into(), "zca :: Zcy { n: 1, f: fn -> int do zca.n end }\n".into()],
+        14 => vec!["zct :: (1, fn -> int do zct[0] end)\n".into()],
         4 => vec!["zcu :: zca\n".into(), "zca :: zca + 1\n".into()],
         5 => vec!["zcu :: fn -> int do\n    zca\nend\n".into(), "zca :: zca + 1\n".into()],
         6 => vec!["zcu :: zca + 1\n".into(), "zca :: zcb\n".into(), "zcb :: zca\n".into()],
@@ -305,7 +315,7 @@ impl Check for C11 {
         }
         Finish {
             level: "exploration",
-            rule: "generated programs extended with 15 top-level definitions covering every dependency kind (reads, call in an initialiser, assignment from a function, compound assignment, types used before declaration, nested blob instantiation, variant construction, closure returned by a function, list of globals) are rendered in 7 top-level orders (as generated, reversed, 4 shuffles, users-first); acceptance, print trace, outcome and uninitialised-read monitor events under luamon must agree. Variants with cyclic initialisers (7 shapes) must be rejected in 3 orders, and variants with a definite mismatch against a declared enum/blob type (5 shapes) in 4 orders, wherever the type's declaration stands. Non-trivial: every judged program; distinct by source hash.".into(),
+            rule: "generated programs extended with 15 top-level definitions covering every dependency kind (reads, call in an initialiser, assignment from a function, compound assignment, types used before declaration, nested blob instantiation, variant construction, closure returned by a function, list of globals) are rendered in 7 top-level orders (as generated, reversed, 4 shuffles, users-first); acceptance, print trace, outcome and uninitialised-read monitor events under luamon must agree. Variants with cyclic initialisers (15 shapes, 8 of them passing through a function literal given to a call or stored in a list, tuple or blob) must be rejected in 3 orders, and variants with a definite mismatch against a declared enum/blob type (5 shapes) in 4 orders, wherever the type's declaration stands. Non-trivial: every judged program; distinct by source hash.".into(),
             extra: J::obj(),
             assumptions: vec!["global initialisers are side-effect free (the generator only builds such), so the expected behaviour is order-independent by construction".into(), "luamon models Lua 5.3".into()],
             exhaustive: false,
@@ -603,6 +613,50 @@ impl Check for C12 {
                     }),
                 }
             }
+            // negative variant: a second import that binds an already bound namespace name to another
+            // module must be rejected (not dropped silently)
+            let ns_imports: Vec<(String, usize, String)> = files
+                .iter()
+                .filter(|(k, _)| counts.contains_key(*k))
+                .flat_map(|(k, t)| {
+                    t.lines()
+                        .enumerate()
+                        .filter(|(_, l)| l.starts_with("use "))
+                        .map(|(n, l)| {
+                            let rest = l[4..].trim();
+                            let name = match rest.split_once(" as ") {
+                                Some((_, a)) => a.trim().to_string(),
+                                None => rest.trim_end_matches('/').rsplit('/').next().unwrap_or("").to_string(),
+                            };
+                            (k.clone(), n, name)
+                        })
+                        .collect::<Vec<_>>()
+                })
+                .filter(|(_, _, name)| !name.is_empty())
+                .collect();
+            if !ns_imports.is_empty() {
+                let (k, n, name) = ns_imports[rng.below(ns_imports.len())].clone();
+                let others: Vec<&String> = files.keys().filter(|f| **f != k && f.ends_with(".sy") && !f.ends_with("exports.sy")).collect();
+                if !others.is_empty() {
+                    let other = others[rng.below(others.len())];
+                    let extra = format!("use /{} as {}", other.trim_end_matches(".sy"), name);
+                    let mut f2 = files.clone();
+                    let mut ls: Vec<String> = f2[&k].lines().map(|l| l.to_string()).collect();
+                    ls.insert(n + 1, extra.clone());
+                    f2.insert(k.clone(), ls.join("\n") + "\n");
+                    st.count("clashing_import_variants_tried");
+                    match behaviour(&f2, "main.sy") {
+                        Behaviour::Rejected(_) => st.count("clashing_import_variants_rejected"),
+                        Behaviour::NoVerdict(_) => {}
+                        other => st.violation(Violation {
+                            signature: "modules:ambiguous-import-accepted".into(),
+                            hazard: None,
+                            case: index,
+                            detail: J::obj().with("file", J::s(k)).with("added_line", J::s(extra)).with("files", J::Obj(f2.iter().map(|(k, v)| (k.clone(), J::s(v.clone()))).collect())).with("behaviour", J::s(format!("{:?}", other).chars().take(500).collect::<String>())),
+                        }),
+                    }
+                }
+            }
         }
     }
     fn finish(&self, _ctx: &Ctx, st: &Stats) -> Finish {
@@ -617,7 +671,7 @@ impl Check for C12 {
         }
         Finish {
             level: "exploration",
-            rule: "a generated program (incl. blobs, enums, mutable globals assigned from other files) is run single-file, then rendered 3 times as a project of 2-5 files in up to 3 directory levels; every cross-file reference independently uses `use m` (m.x), `use m as q`, `from m use x` / `from m use (x, y)`, `from m use (x as y)`, with relative sub-folder or /-rooted paths; import cycles arise naturally (files refer to each other). Acceptance, print trace and outcome under luamon must equal the single-file run, every path is requested from the reader once, and a rendering with one import line removed must be rejected. Non-trivial: judged multi-file renderings; distinct by content hash.".into(),
+            rule: "a generated program (incl. blobs, enums, mutable globals assigned from other files) is run single-file, then rendered 3 times as a project of 2-5 files in up to 3 directory levels; every cross-file reference independently uses `use m` (m.x), `use m as q`, `from m use x` / `from m use (x, y)`, `from m use (x as y)`, with relative sub-folder or /-rooted paths; import cycles arise naturally (files refer to each other). Acceptance, print trace and outcome under luamon must equal the single-file run, every path is requested from the reader once, a rendering with one import line removed must be rejected, and so must a rendering with an added import that binds an already imported namespace name to another file (plus hand-written ambiguous-import scenarios). Non-trivial: judged multi-file renderings; distinct by content hash.".into(),
             extra: J::obj(),
             assumptions: vec!["file names avoid the std module names; folder `exports.sy` imports and chained namespaces are exercised by the fixed scenarios of the C12 witness list, not by the random layouts".into()],
             exhaustive: false,
@@ -663,6 +717,29 @@ fn fixed_scenarios(st: &mut Stats) {
         ("folder import needs exports.sy to export the name", "main.sy", "use pkg/\n\nstart :: fn do\n    print(pkg.dval)\nend\n"),
         ("the alias replaces the module name", "main.sy", "use a as aa\n\nstart :: fn do\n    print(a.aval)\nend\n"),
     ];
+    // two imports may not bind one name to different modules (the second one must not be dropped silently)
+    files.insert("net/utils.sy".into(), "name :: \"net\"\n".into());
+    files.insert("ui/utils.sy".into(), "name :: \"ui\"\n".into());
+    let ambiguous: &[(&str, &str, &str)] = &[
+        ("two modules with the same last path component", "main.sy", "use net/utils\nuse ui/utils\n\nstart :: fn do\n    print(utils.name)\nend\n"),
+        ("one alias for two modules", "main.sy", "use a as x\nuse b as x\n\nstart :: fn do\n    print(x.aval)\nend\n"),
+        ("alias equal to the name of another imported module", "main.sy", "use a\nuse b as a\n\nstart :: fn do\n    print(a.aval)\nend\n"),
+        ("from-import alias equal to an imported module", "main.sy", "use a\nfrom b use (bval as a)\n\nstart :: fn do\n    print(a)\nend\n"),
+    ];
+    for (what, path, text) in ambiguous {
+        let mut f2 = files.clone();
+        f2.insert(path.to_string(), text.to_string());
+        st.count("fixed_negative_scenarios_tried");
+        match behaviour(&f2, "main.sy") {
+            Behaviour::Rejected(_) => st.count("fixed_negative_scenarios_rejected"),
+            other => st.violation(Violation {
+                signature: "modules:ambiguous-import-accepted".into(),
+                hazard: None,
+                case: 0,
+                detail: J::obj().with("what", J::s(*what)).with("main.sy", J::s(*text)).with("behaviour", J::s(format!("{:?}", other).chars().take(400).collect::<String>())),
+            }),
+        }
+    }
     for (what, path, text) in negatives {
         let mut f2 = files.clone();
         f2.insert(path.to_string(), text.to_string());
